@@ -308,13 +308,13 @@ impl TypeEntry {
                     Err(Error::invalid_value())
                 }
             }
-            TypeEntryDetails::String => {
-                if let Some("") = default.as_str() {
-                    Ok(DefaultKind::Intrinsic)
-                } else {
-                    Ok(DefaultKind::Specific)
-                }
-            }
+            TypeEntryDetails::String => match default.as_str() {
+                Some("") => Ok(DefaultKind::Intrinsic),
+                Some(_) => Ok(DefaultKind::Specific),
+                // A default for a string must be a JSON string; anything
+                // else cannot be rendered by output_value().
+                None => Err(Error::invalid_value()),
+            },
 
             TypeEntryDetails::Reference(_) => unreachable!(),
         }
